@@ -530,6 +530,10 @@ func buildE1(e *Env) *e1Model {
 		m.problems = append(m.problems, "SyscallGroup.Assemble or Policy.Assemble not found")
 		return m
 	}
+	// an entry point that hands the work to a function of the package and returns that function's program untouched (a
+	// length check, a counter, a second entry point sharing the body): the generator is the function it delegates to
+	m.polFn = unwrapDelegation(m.polFn)
+	m.fragFn = unwrapDelegation(m.fragFn)
 	progAllocs := func(fn *ssa.Function) []*ssa.Alloc {
 		var out []*ssa.Alloc
 		for _, b := range fn.Blocks {
@@ -1040,4 +1044,69 @@ func recordsProblem(in ssa.Instruction, depth int) bool {
 		return true
 	}
 	return must(h.Blocks[0])
+}
+
+// unwrapDelegation: fn calls exactly one function h of the package with the same results, every success return of fn returns
+// h's program itself behind h's nil error, and every other return carries no program: h is returned (applied twice at most).
+func unwrapDelegation(fn *ssa.Function) *ssa.Function {
+	for round := 0; round < 2; round++ {
+		var call *ssa.Call
+		n := 0
+		for _, ci := range flow.Calls(fn) {
+			c, ok := ci.(*ssa.Call)
+			if !ok {
+				continue
+			}
+			h := c.Call.StaticCallee()
+			if h == nil || h == fn || h.Pkg != fn.Pkg || len(h.Blocks) == 0 || !types.Identical(h.Signature.Results(), fn.Signature.Results()) {
+				continue
+			}
+			n++
+			call = c
+		}
+		if n != 1 || fn.Signature.Results().Len() != 2 {
+			return fn
+		}
+		errv := flow.ErrResult(call)
+		okAll, nSucc := true, 0
+		for _, ret := range flow.Returns(fn) {
+			rs := flow.RetResults(ret)
+			if len(rs) != 2 {
+				return fn
+			}
+			if flow.KnownNonNilError(rs[1], ret.Block()) || rs[1] == errv {
+				// failure return: no program
+				if k, isConst := rs[0].(*ssa.Const); !isConst || k.Value != nil {
+					if ex, isEx := rs[0].(*ssa.Extract); !(isEx && ex.Tuple == ssa.Value(call) && rs[1] == errv) {
+						okAll = false
+					}
+				}
+				continue
+			}
+			ex, isEx := rs[0].(*ssa.Extract)
+			if !isEx || ex.Tuple != ssa.Value(call) || ex.Index != 0 {
+				okAll = false
+				continue
+			}
+			// `return h(...)` directly, or a nil error behind h's nil error
+			if rs[1] == errv {
+				nSucc++
+				continue
+			}
+			if !flow.IsNilConst(rs[1]) || errv == nil {
+				okAll = false
+				continue
+			}
+			if nn, known := flow.ErrKnown(errv, ret.Block()); !known || nn {
+				okAll = false
+				continue
+			}
+			nSucc++
+		}
+		if !okAll || nSucc == 0 {
+			return fn
+		}
+		fn = call.Call.StaticCallee()
+	}
+	return fn
 }
